@@ -23,6 +23,10 @@ def length_of(v):
         return v.length
     if isinstance(v, (SBytes, MPBytes, MPTrunc)):
         if v.length is None:
+            if isinstance(v, SBytes):  # abstract bytes of unknown size (e.g. encoded text): some non-negative length
+                length_of.n = getattr(length_of, "n", 0) + 1
+                v.length = z3.Int(f"blen!{length_of.n}")
+                return v.length
             raise Unsupported("file segment without a length")
         return v.length
     raise Unsupported(f"file content {v!r}")
